@@ -137,7 +137,8 @@ def register_parser_ns_map(db):
         # the handler's own writes into the map are not modelled (assumed method), so "empty at exit" in the model
         # is "empty when handed to the handler"
         ensures=[("recording-starts-from-an-empty-map",
-                  "call_arg('XmlHandlerObj.parse', 1) is self.ns_map and len(self.ns_map) == 0")],
+                  "call_arg('XmlHandlerObj.parse', 1) is self.ns_map and len(self.ns_map) == 0"),
+                 ("returns-an-object-or-fails", "result is not None")],
         modifies=["self.ns_map"],
         raises={"ParserError": True, "ConverterError": True, "XmlContextError": True},
         properties=["C14"], replay="replay_parser_ns_map",
